@@ -274,3 +274,21 @@ Lemma illformed_address_fires_nothing : forall st m t src port k,
 Proof.
   intros st m t src port k H. apply reerror_fires_nothing. intro k'. eapply rematch_error_any_key. eassumption.
 Qed.
+
+(* ---- registration order under enable / disable / re-enable / function replacement -------------------------- *)
+Lemma enable_goes_last : forall st id r, nth_error (resps st) id = Some r -> r_enabled r = false ->
+  cmdp (enable st id) = cmdp st ++ [id].
+Proof. intros st id r Hn He. unfold enable. rewrite Hn, He. reflexivity. Qed.
+Lemma enable_enabled_noop : forall st id r, nth_error (resps st) id = Some r -> r_enabled r = true -> enable st id = st.
+Proof. intros st id r Hn He. unfold enable. rewrite Hn, He. reflexivity. Qed.
+Lemma disable_keeps_others : forall st id r, nth_error (resps st) id = Some r -> r_enabled r = true ->
+  cmdp (disable st id) = filter (fun j => negb (Nat.eqb j id)) (cmdp st).
+Proof. intros st id r Hn He. unfold disable. rewrite Hn, He. reflexivity. Qed.
+Lemma set_func_keeps_place : forall st id f,
+  cmdp (set_func st id f) = cmdp st /\ forall kind key, ids_at (tbl (set_func st id f) kind) key = ids_at (tbl st kind) key.
+Proof.
+  intros st id f. unfold set_func. destruct (nth_error (resps st) id) as [r|]; [|split; reflexivity].
+  split; [reflexivity|]. intros kind key. unfold tbl. simpl.
+  destruct kind; [destruct (r_enabled r && r_matching r) | destruct (r_enabled r && negb (r_matching r))];
+    rewrite ?ids_at_update; reflexivity.
+Qed.
